@@ -158,17 +158,31 @@ def _worker(args):
     wdir = os.path.join(scratch, 'w%d' % lo)
     sim = SimProc(exe, ['--dir', wdir], wdir)
     died = 0
-    for n in range(lo, hi):
+    retried = set()
+    n = lo - 1
+    while n + 1 < hi:
+        n += 1
         rng = random.Random(seed * 1000003 + n)
         try:
             sim.begin_case(n)
             fn(out, sim, rng, n, extra)
             out.evals += 1
         except SimDied as e:
-            died += 1
-            out.stat('harness_deaths')
             err = sim.stderr_text()
             san = parse_sanitizer(err)
+            if not san and n not in retried:
+                # no sanitizer report: most likely the 60 s per-case alarm on a loaded machine; the history is deterministic, run it once more
+                retried.add(n)
+                out.stat('harness_deaths_retried')
+                try:
+                    os.unlink(sim.errpath)
+                except OSError:
+                    pass
+                sim.restart()
+                n -= 1
+                continue
+            died += 1
+            out.stat('harness_deaths')
             if san:
                 i = err.find('ERROR: AddressSanitizer')
                 for case, cls, key, detail in san[-3:]:
